@@ -49,6 +49,11 @@ def classify(step_array_cells, rows, cols):
     return "C02:render"
 
 
+def fmtstr_(x):
+    from curtsies.formatstring import fmtstr
+    return fmtstr(x)
+
+
 def run_case(ctx, case):
     from curtsies import FullscreenWindow
     from curtsies.formatstringarray import fsarray
@@ -83,13 +88,27 @@ def run_case(ctx, case):
                         arr = fsarray(vals)
                     except Exception:
                         arr = vals
+                    if st.get("row_replaced") is not None and not isinstance(arr, list) and len(vals) > 1:
+                        # the application built the FSArray from shorter rows and then put a row in
+                        # place with a[i] = row (the FSArray keeps its declared width)
+                        i = st["row_replaced"] % len(vals)
+                        keep = min(len(v) for j, v in enumerate(vals) if j != i)
+                        try:
+                            arr = fsarray([v[:keep] for v in vals])
+                            arr[i] = vals[i] if not isinstance(vals[i], str) else fmtstr_(vals[i])
+                            for j in range(len(vals)):
+                                if j != i and len(vals[j]) > keep:
+                                    cells[j] = cells[j][:keep]
+                        except Exception:
+                            arr = vals
                 if st.get("inplace") and prev_obj is not None:
                     # the application keeps ONE frame object, edits it in place and renders it again
                     if isinstance(prev_obj, list) and isinstance(arr, list):
                         prev_obj[:] = arr
                         arr = prev_obj
                     elif not isinstance(prev_obj, list) and not isinstance(arr, list) and \
-                            arr.width == prev_obj.width and len(arr) == len(prev_obj) and arr.width:
+                            arr.width == prev_obj.width and len(arr) == len(prev_obj) and arr.width and \
+                            all(len(r_) <= arr.width for r_ in arr.rows) and all(len(r_) <= arr.width for r_ in prev_obj.rows):
                         prev_obj[0:len(arr), 0:arr.width] = [r + " " * (arr.width - len(r)) if len(r) < arr.width else r
                                                              for r in arr.rows]
                         arr = prev_obj
@@ -197,6 +216,8 @@ def gen_history(rng, sizes, steps, start=None):
             arr.append(gen_row(rng, L))
         step = {"op": "render", "array": arr, "as": rng.choice(["list", "list", "fsarray"]),
                 "cursor": [rng.randrange(rows), rng.randrange(cols)]}
+        if step["as"] == "fsarray" and rng.random() < .3:
+            step["row_replaced"] = rng.randrange(8)
         last = next((s_ for s_ in reversed(case["steps"]) if s_["op"] == "render"), None)
         if last is not None and case["steps"][-1]["op"] == "render" and rng.random() < .3:
             step["inplace"] = True
